@@ -23,6 +23,10 @@ args = sys.argv[4:]
 checks = [pid]
 tier = "quick"
 skip_suite = "--skip-suite" in args
+# pre-screen: run the checks against the worktree's sources (PYTHONPATH) instead of patching /repo; used while a
+# long sweep is reading /repo. Evidence/replays go to a scratch directory. Scores are confirmed on /repo itself
+# afterwards by tools/reseed_all.py.
+via_worktree = "--via-worktree" in args
 if "--checks" in args:
     checks = args[args.index("--checks") + 1].split(",")
 if "--tier" in args:
@@ -69,7 +73,23 @@ meta["valid_seed"] = bool(valid)
 
 # 2 run my checks against it
 meta["checks"] = {}
-if valid:
+if valid and via_worktree:
+    scratch = Path("/var/tmp/evalseed") / name
+    shutil.rmtree(scratch, ignore_errors=True)
+    (scratch / "evidence").mkdir(parents=True)
+    wenv = {**env, "VERIF_NO_CONFIRM": "1", "VERIF_EVIDENCE_DIR": str(scratch / "evidence"), "VERIF_REPLAY_DIR": str(scratch / "replays")}
+    for c in checks:
+        t0 = time.time()
+        rc = sh(["/venv/bin/python", "-m", "mc.run", c, "--tier", tier], cwd="/verif", env=wenv, timeout=7200)
+        viol = [l for l in rc.stdout.splitlines() if l.startswith("VIOLATION")]
+        sym = [l for l in rc.stdout.splitlines() if "unexplained symptoms" in l]
+        meta["checks"][c] = {"rc": rc.returncode, "violations": len(viol), "symptoms": sym[-1][:600] if sym else "", "wall_s": round(time.time() - t0, 1),
+                             "first": next((l.strip()[:400] for l in rc.stdout.splitlines() if l.strip().startswith("symptom=")), ""), "via": "worktree"}
+        print(f"check {c}: rc={rc.returncode} violations={len(viol)} {meta['checks'][c]['symptoms'][:300]}")
+        if rc.returncode == 2:
+            print(rc.stderr[-1500:])
+    shutil.rmtree(scratch, ignore_errors=True)
+elif valid:
     ap = sh(["git", "-C", "/repo", "apply", str(seed / "patch.diff")])
     if ap.returncode != 0:  # /repo may have moved on since the worktree was made
         ap = sh(["git", "-C", "/repo", "apply", "--3way", str(seed / "patch.diff")])
